@@ -21,6 +21,8 @@ def nan_assumptions(term_or_terms, x):
         for t in subterms(t0):
             if t[0] == 'fcmp' and (t[2] == x or t[3] == x):
                 asm[t] = (t[1] == 'ne')
+            if t[0] == 'unord' and (t[1] == x or t[2] == x):
+                asm[t] = True         # partial_cmp with NaN is None
     return asm
 
 
